@@ -26,3 +26,25 @@ _c.rtc_defs = ["all(ET(i,j,0)==0.0 for i in range(N) for j in range(N))",
 _c.rtc_ensures = ["implies(N>=2, all(result[i,j]==2.0*ET(i,j,N)/(N*(N-1)) for i in range(N) for j in range(N)))"]
 _c.rtc_prefs = ["shape(admittance,0)==N and shape(admittance,1)==N and shape(R,0)==N and shape(R,1)==N", "N==3"]
 _c.rtc_scope = 4
+
+
+# ============================================================================ core: area-weighted connectivity (C12)
+# "area-weighted measures use the cosine of each node's own latitude": in / out AWC are the cos(lat)-weighted column / row
+# sums of the adjacency matrix over the total cos(lat) - whatever node weights the network carries.
+# assumed contract of a dependency: self.grid.cos_lat() returns the vector C of length N (GeoGrid.cos_lat, checked by
+#   bounded/c12.py against cos(radians(lat))); assumed: the total area fsum(C) is positive (no grid of poles only).
+from contracts.kernels import K as _K      # noqa: E402
+for _nm, _sum in (("inarea_weighted_connectivity", "C[i]*self.adjacency[i,j]"),
+                  ("outarea_weighted_connectivity", "self.adjacency[j,i]*C[i]")):
+    _c = _K(f"GeoNetwork.{_nm}[formula]", "core/geo_network.py", lang="py", func=f"GeoNetwork.{_nm}",
+            props=("C12",), py_mode=True, vectors=True,
+            inputs={"self.adjacency": "arr:int8:2", "C": "arr:float64:1", "NN": "int", "self.silence_level": "int"},
+            requires=["NN>=1", "shape(self.adjacency,0)==NN and shape(self.adjacency,1)==NN", "shape(C,0)==NN",
+                      "fsum(lambda i: C[i], NN) > 0", "self.silence_level>=2"],
+            call_facts={"self.grid.cos_lat": {"returns": "arr:float64:1", "ensures": ["same_array(result, C)", "shape(result,0)==NN"]}},
+            ensures=["shape(result,0)==NN",
+                     f"all(result[j]*fsum(lambda i: C[i], NN) == fsum(lambda i: {_sum}, NN) for j in range(NN))"],
+            checks=("shape", "bounds"))
+    _c.region = "body"
+    _c.required_asserts = []
+    _c.rtc_py = True
